@@ -483,3 +483,255 @@ def rule_parsed_as_stored(chk, fb, rid, only_types=None, floor=300):
                    detail="after set_attributes the new %s is changed by: %s" % (ty, changed or "nothing"))
             n += 1
     return n
+
+
+
+# ---------------------------------------------------------------------------------------------------------------------
+# collected, then filed: nothing that was parsed is dropped
+def rule_collected_then_filed(chk, fb, rid, floor=1):
+    """Readers that first collect parsed objects in a local list and file them afterwards (defined names: with the sheet
+    of their scope, with the sheet they point into, or with the workbook) must file every one: each path through the
+    filing loop hands the element (or its clone) to a crate function."""
+    from mirq import Flow
+    from cfg import CFG
+
+    r = chk.rule(
+        rid,
+        "collected, then filed: in a reader, every element of a locally collected list of parsed model objects is handed to a crate function on every path through the loop that distributes the list (no element falls through unfiled)",
+        floor=floor,
+    )
+    for d, b in sorted(fb.mir.items()):
+        if not d.startswith("reader::") or "::{closure" in d:
+            continue
+        fl = Flow(fb, b)
+        cfg = None
+        loops = None
+        for bi, t in fl.calls(lambda t: t.get("fn", "").endswith("::next") and "Iter" in t.get("fn", "")):
+            ety = fb.ty(b["locals"][t["dest"]["l"]]["t"])
+            if "structs::" not in ety or any(a[0] == "arg" for a in fl.atoms(t["args"][0])):
+                continue  # not model objects, or a list owned by the caller
+            if cfg is None:
+                cfg = CFG(b)
+                loops = {}
+                for tl, h in cfg.back_edges():
+                    loops.setdefault(h, [set(), []])
+                    loops[h][0] |= cfg.natural_loop(tl, h)
+                    loops[h][1].append(tl)
+            mine = [(h, v) for h, v in loops.items() if bi in v[0]]
+            if not mine:
+                continue
+            h, (body, tails) = min(mine, key=lambda x: len(x[1][0]))
+            stores = set()
+            only_copies = lambda f: not f.split("::")[-1] in ("clone", "cloned", "copied", "to_owned", "deref", "as_ref", "unwrap", "into", "from", "new")
+            for ci, ct in fl.calls():
+                # the element itself (or its clone) is what is handed over - not something computed from it
+                if ci in body and ci != bi and ct.get("fn", "") in fb.mir and any(x[0] == "call" and x[2] == bi for a in ct["args"][1:] for x in fl.atoms(a, stop_calls=only_copies)):
+                    stores.add(ci)
+            seen, work = set(), [h]
+            while work:
+                y = work.pop()
+                if y in seen or y in stores or y not in body:
+                    continue
+                seen.add(y)
+                work.extend(z for z in cfg.succ[y] if z != h)
+            bypass = any(tl in seen for tl in tails)
+            chk.touch(d)
+            short = ety.split("::")[-1].rstrip(">")
+            chk.ob(r, "%s:%s" % (d.split("::", 1)[-1], short), bool(stores) and not bypass, where="%s:%s" % (b["file"], t.get("ln")),
+                   detail="%d filing call(s) in the loop; %s" % (len(stores), "a path through the loop body files the element nowhere: it is dropped on load" if bypass or not stores else "every path files the element"))
+            # an element that says where it belongs (a scope test on the element itself) is filed by that first: every filing
+            # call is reached only after the scope test
+            scope_tests = [ci for ci, ct in fl.calls() if ci in body and ct.get("fn", "") in fb.mir and ct.get("fn", "").split("::")[-1].startswith(("has_local_", "is_local_", "has_scope")) and ct["args"]
+                           and any(x[0] == "call" and x[2] == bi for x in fl.atoms(ct["args"][0], stop_calls=only_copies))]
+            if scope_tests and stores:
+                late = sorted(b["blocks"][ci]["t"].get("ln") for ci in stores if not any(cfg.dominates(st_, ci) for st_ in scope_tests))
+                chk.ob(r, "%s:%s:scope-first" % (d.split("::", 1)[-1], short), not late, where="%s:%s" % (b["file"], late[0] if late else t.get("ln")),
+                       detail="the element's own scope test decides first where it is filed: %s" % ("yes" if not late else "NO - filing call(s) at line(s) %s can be reached without asking for the element's scope (a sheet-scoped name is filed by what it points at)" % late))
+
+
+
+# ---------------------------------------------------------------------------------------------------------------------
+# attributes do not depend on whether the element has children
+def rule_empty_flag_attrs(chk, fb, rid, floor=25):
+    """<row s="3"/> and <row s="3">...</row> carry the same attributes: a reader that is told whether its element is
+    self-closing reads the attributes either way (the flag only decides whether children are read)."""
+    from mirq import Flow
+    from cfg import CFG
+
+    r = chk.rule(
+        rid,
+        "attributes are read whether or not the element is self-closing: in every set_attributes* that receives an is-empty flag, no attribute extraction is control-dependent on that flag (an early return for empty elements comes after the attributes)",
+        floor=floor,
+    )
+    for d, b in sorted(fb.mir.items()):
+        if not d.split("::")[-1].startswith("set_attributes") or "::{closure" in d or b["file"].startswith("tests"):
+            continue
+        bools = [i for i in range(1, b["argc"] + 1) if fb.ty(b["locals"][i]["t"]) == "bool"]
+        if not bools:
+            continue
+        fl = Flow(fb, b)
+        cfg = CFG(b)
+        # extractions from the element this reader was called for (its BytesStart parameter), not from child elements
+        own = lambda t: bool(t["args"]) and any(a[0] == "arg" for a in fl.atoms(t["args"][0], through_calls=False))
+        gets = [(bi, t) for bi, t in fl.calls() if (t.get("fn", "").endswith("get_attribute") or t.get("fn", "").split("::")[-1] in ("try_get_attribute", "attributes")) and own(t)]
+        bad = []
+        for bi, t in gets:
+            for x in cfg.control_deps_transitive(bi):
+                sw = b["blocks"][x]["t"]
+                if sw["k"] == "switch" and any(a[0] == "arg" and a[1] in bools for a in fl.atoms(sw["op"], through_calls=False)):
+                    bad.append(t.get("ln"))
+        chk.touch(d)
+        chk.ob(r, d.split("::", 1)[-1].replace("structs::", ""), not bad, where="%s:%s" % (b["file"], bad[0] if bad else b.get("line", "")),
+               detail="%d attribute extraction(s); reached only for non-empty (or only for empty) elements: lines %s" % (len(gets), sorted(set(bad)) or "none"))
+
+
+# ---------------------------------------------------------------------------------------------------------------------
+# an attribute is written under a test of its own field
+ATTR_GUARD_OK = {
+    # (struct, attribute): reason
+    ("Color", "indexed"): "a colour is written in exactly one representation: theme, else indexed, else rgb (else-if chain by design)",
+    ("Color", "rgb"): "a colour is written in exactly one representation: theme, else indexed, else rgb (else-if chain by design)",
+    ("StyleMatrixReferenceType", "idx"): "idx is written in both branches; the branch only decides whether the element has a child (scheme colour)",
+}
+
+
+def _attr_pushes(h, adt):
+    """(attribute name, value expr, [fields read by each enclosing condition], line) for every (name, value) tuple."""
+    lets = {}
+    for x in hirq.walk(h["body"]):
+        if x.get("k") == "let" and x.get("init") is not None and x["pat"].get("k") == "bind":
+            lets[x["pat"].get("lid")] = x["init"]
+
+    def fields_of(n, depth=0):
+        fs = set(_self_fields(n, adt))
+        if depth < 4:
+            for y in hirq.walk(n):
+                if y.get("k") == "path" and y.get("lid") in lets:
+                    fs |= fields_of(lets[y["lid"]], depth + 1)
+        return fs
+
+    out = []
+
+    def walk(n, guards):
+        if isinstance(n, list):
+            for x in n:
+                walk(x, guards)
+            return
+        if not isinstance(n, dict):
+            return
+        k = n.get("k")
+        if k == "if":
+            cf = fields_of(n["cond"])
+            walk(n["cond"], guards)
+            walk(n.get("then"), guards + [cf])
+            if n.get("else") is not None:
+                walk(n["else"], guards + [cf])
+            return
+        if k == "tup" and len(n.get("es", [])) == 2:
+            v = hirq.lit_value(n["es"][0])
+            if isinstance(v, str) and hirq.strip(n["es"][0]).get("lt") == "str":
+                out.append((v, fields_of(n["es"][1]), list(guards), n.get("ln")))
+        for c in hirq.children(n):
+            walk(c, guards)
+
+    walk(h["body"], [])
+    return out
+
+
+def rule_attr_guards(chk, fb, rid, floor=400):
+    """`if self.a.has_value() { attributes.push(("b", self.b...)) }` loses b whenever a is absent: the condition under
+    which a struct writer emits an attribute reads the field(s) the value comes from, and no other field."""
+    r = chk.rule(
+        rid,
+        "an attribute is written under a test of its own field: in every struct writer, the conditions enclosing the push of (attribute, value) read no field of the struct other than those the value is computed from (listed by-design exceptions aside)",
+        floor=floor,
+    )
+    for adt in both_sided(fb):
+        short = adt.split("::")[-1]
+        seen = {}
+        for d in writer_fns(fb, adt):
+            h = fb.hir[d]
+            for name, F, guards, ln in _attr_pushes(h, adt):
+                G = set().union(*guards) if guards else set()
+                other = sorted(G - F) if F else []
+                ok = not other or (short, name) in ATTR_GUARD_OK
+                i = seen.get(name, 0)
+                seen[name] = i + 1
+                chk.ob(r, "%s@%s%s" % (short, name, "#%d" % i if i else ""), ok, where="%s:%s" % (h["file"], ln),
+                       detail="written from %s under conditions over %s%s" % (sorted(F) or "no field", sorted(G) or "nothing", "; by design: " + ATTR_GUARD_OK[(short, name)] if other and ok else ""))
+
+
+# ---------------------------------------------------------------------------------------------------------------------
+# the self-closing decision covers every child
+def rule_empty_covers_children(chk, fb, rid, floor=12):
+    """An element written self-closing has no children: the flag that makes a struct writer emit `<x .../>` must be false
+    whenever any child would be written, i.e. it reads every field the children are written from."""
+    r = chk.rule(
+        rid,
+        "the self-closing decision covers every child: where a struct writer passes a computed is-empty flag to the start-tag writer, the flag's expression reads every field of the struct that is read inside the blocks guarded by that flag (the children) - a child whose field the flag ignores is dropped whenever the others are absent",
+        floor=floor,
+    )
+    for adt in sorted(fb.adts):
+        for d in writer_fns(fb, adt):
+            h = fb.hir[d]
+            lets = {}
+            for x in hirq.walk(h["body"]):
+                if x.get("k") == "let" and x.get("init") is not None and x["pat"].get("k") == "bind":
+                    lets[x["pat"].get("lid")] = x["init"]
+
+            def fields_of(nn, depth=0):
+                fs = set(_self_fields(nn, adt))
+                if depth < 4:
+                    for y in hirq.walk(nn):
+                        if y.get("k") == "path" and y.get("lid") in lets:
+                            fs |= fields_of(lets[y["lid"]], depth + 1)
+                return fs
+
+            n = 0
+            for x in hirq.walk(h["body"]):
+                if not (x.get("k") == "call" and x.get("def", "").endswith("write_start_tag") and len(x.get("args", [])) == 4):
+                    continue
+                fl = hirq.strip(x["args"][3])
+                if fl.get("k") == "lit":
+                    continue
+                E = fields_of(fl)
+                flag_lids = {y.get("lid") for y in hirq.walk(fl) if y.get("k") == "path" and y.get("lid") in lets}
+                if not flag_lids:
+                    continue
+                C = set()
+                for y in hirq.walk(h["body"]):
+                    if y.get("k") == "if" and any(z.get("k") == "path" and z.get("lid") in flag_lids for z in hirq.walk(y["cond"])):
+                        C |= _self_fields(y["then"], adt)
+                        if y.get("else") is not None:
+                            C |= _self_fields(y["else"], adt)
+                miss = sorted(C - E)
+                chk.ob(r, "%s#%d" % (adt.split("::")[-1], n), not miss, where="%s:%s" % (h["file"], x.get("ln")),
+                       detail="is-empty flag reads %s; children are written from %s%s" % (sorted(E), sorted(C), "; NOT covered by the flag: %s" % miss if miss else ""))
+                n += 1
+
+
+# ---------------------------------------------------------------------------------------------------------------------
+# an accessor gives access, it does not replace
+REPLACERS = ("insert", "replace", "take", "take_if", "zip", "xor")
+
+
+def rule_accessor_keeps_state(chk, fb, rid, only=None, floor=150):
+    """`x.get_foo_mut()` twice in a row is the same foo: a `get_*_mut` accessor of an optional component creates the
+    component when it is absent (get_or_insert / a test for None) and never replaces one that is there."""
+    r = chk.rule(
+        rid,
+        "an accessor gives access, it does not replace: no `get_*_mut` method applies Option::insert / replace / take (or mem::replace / take / swap) to a component of self - creation on demand goes through get_or_insert* or happens under a test that the component is absent",
+        floor=floor,
+    )
+    for d, b in sorted(fb.mir.items()):
+        nm = d.split("::")[-1]
+        if not (nm.startswith("get_") and nm.endswith("_mut")) or b["kind"] != "AssocFn" or b["file"].startswith("tests") or not b.get("self_ty", "").startswith("structs::"):
+            continue
+        if only and b.get("self_ty") not in only:
+            continue
+        opt = [t for _, t in fb.calls_in(b) if t.get("fn", "").startswith("std::option::Option::<T>::") or t.get("fn", "").startswith("std::mem::")]
+        if not opt:
+            continue
+        bad = sorted({t["fn"].split("::")[-1] for t in opt if (t["fn"].startswith("std::option::") and t["fn"].split("::")[-1] in REPLACERS) or (t["fn"].startswith("std::mem::") and t["fn"].split("::")[-1] in ("replace", "take", "swap"))})
+        chk.touch(d)
+        chk.ob(r, d.replace("structs::", "", 1), not bad, where=fb.loc(d), detail="Option / mem operations used: %s%s" % (sorted({t["fn"].split("::")[-1] for t in opt}), "; REPLACES the component on every access: %s" % bad if bad else ""))
